@@ -1,6 +1,201 @@
 /-
-C10 — placeholder while the lemma files are being written.
+C10 — Stale, duplicate and out-of-order job messages cannot corrupt state.
+
+Statements only; proofs by reference to `SchedLemmasC10` (per-task message step function `Msg.step`) and to
+the simulation `pm_sim` of `SchedLemmasC09` (`Sched.processMessage` acts on the addressed proxy as `Msg.step`).
+
+What the text claims and what is proved:
+* stale: proved in full for received messages (`stale_ignored`, also for the whole `Sched` state) and for
+  poll results (`stale_poll_ignored`: jobs-poll output is dispatched by the current submit number; the message
+  step function alone would not do, `stale_poll_counterexample`).
+* backward: proved (`backward_polls`), with "backwards" read off the lifecycle of the property text.
+* convergence: proved in the form "any interleaving (duplicates, stale messages, earlier poll results)
+  followed by the poll result of the job's actual outcome ends in that outcome", for the outcomes
+  succeeded, failed (retry registered exactly once) and submission failed.  The text's reading without the
+  final truthful poll result is false (`late_poll_counterexample`, finding late-poll).
 -/
-import CylcModel.Msg
+import CylcModel.SchedLemmasC10
 namespace CylcModel.C10
+open CylcModel.Sched CylcModel.Msg
+
+def exT : TaskDefn :=
+  { name := "a",
+    insts := [(1, { pre := [], sui := [], children := [], nextParentless := none })],
+    firstParentless := some 1,
+    completion := CE.and (CE.var "succeeded") (CE.var "x"),
+    outputs := [⟨"submitted", "submitted"⟩, ⟨"started", "started"⟩, ⟨"succeeded", "succeeded"⟩,
+                ⟨"failed", "failed"⟩, ⟨"submit-failed", "submit-failed"⟩, ⟨"x", "xx"⟩],
+    execRetries := 1 }
+
+def exGraph : Graph :=
+  { icp := 1, fcp := 1, start := 1, runahead := 1, seqs := [[1]], stopPoint := some 1, tasks := [exT] }
+
+/-- a proxy of the example task in its `sn`-th job -/
+def exP (st : Status) (done : List String) (sn : Nat) (execTry : Nat := 0) : PS :=
+  { x := { pt := 1, name := "a", status := st, submitNum := sn, done := done, runahead := false, execTry := execTry },
+    tr := false }
+
+theorem exT_std : StdOut (some exT) := by unfold StdOut; decide
+
+/-! ### stale messages -/
+
+/-- **a message received from a job with another (in particular an older) submit number changes nothing**:
+status, outputs, try counters, no poll — for every message text and fuel. -/
+theorem stale_ignored (ot : Option TaskDefn) (fuel : Nat) (ps : PS) (sn : Nat) (msg : String)
+    (htr : ps.tr = false) (hsn : sn ≠ ps.x.submitNum) : step ot fuel ps .received sn msg = (ps, false) :=
+  stale_step ot fuel ps sn msg htr hsn
+
+/-- … and at the scheduler level the whole state (pool, DB history, everything) is unchanged, for every
+instance graph and state -/
+theorem stale_ignored_sched (g : Graph) (fuel : Nat) (s : State) (p : Int) (n : String) (x : Proxy) (sn : Nat)
+    (msg : String) (h : s.get? p n = some x) (hsn : sn ≠ x.submitNum) :
+    processMessage g fuel s p n .received sn msg = (s, false) :=
+  pm_stale g fuel s p n x sn msg h hsn
+
+example : step (some exT) 4 (exP .running ["submitted", "started"] 2) .received 1 "failed" =
+    (exP .running ["submitted", "started"] 2, false) := stale_ignored _ _ _ _ _ rfl (by decide)
+
+/-- the message step function alone does not protect against information of an older job: a POLLED message
+is processed whatever submit number accompanies it (`process_message` checks submit numbers only for
+received messages) … -/
+def stale_full : Prop :=
+  ∀ (ot : Option TaskDefn) (ps : PS) (flag : Flag) (sn : Nat) (msg : String), ps.tr = false → flag ≠ .internal →
+    sn < ps.x.submitNum → (step ot 4 ps flag sn msg).1.x.status = ps.x.status
+
+theorem stale_poll_counterexample : ¬ stale_full := by
+  intro h
+  have := h (some exT) (exP .preparing ["submitted", "started"] 2 1) .polled 1 "started" rfl (by decide) (by decide)
+  revert this; decide
+
+/-- … the protection for poll results is the dispatch of jobs-poll output by point / name / current submit
+number (`Msg.stepX`, `TaskJobManager._manip_task_jobs_callback`): **the result of a poll of an older job
+(or of any job other than the current one) changes nothing** -/
+theorem stale_poll_ignored (g : Graph) (s : State) (p : Int) (n : String) (x : Proxy) (sn : Nat) (text : String)
+    (h : s.get? p n = some x) (hsn : sn ≠ x.submitNum) : stepX g s (.poll p n sn text) = clearOp s := by
+  show (if pollMatches s p n sn then _ else clearOp s) = clearOp s
+  have : pollMatches s p n sn = false := by
+    unfold pollMatches; rw [h]
+    simp only [Bool.and_eq_false_iff, beq_eq_false_iff_ne]
+    left; exact fun e => hsn e.symm
+  rw [this]; rfl
+
+/-! ### backward messages -/
+
+/-- **a received message of the current job that announces a status behind the current one (lifecycle
+position `Msg.phase`) requests a poll and leaves the status unchanged** -/
+theorem backward_polls (ot : Option TaskDefn) (hs : StdOut ot) (f : Nat) (ps : PS) (sn : Nat) (msg : String) (k : Nat)
+    (hd : dropped ps .received sn = false) (hm : msgPhase? msg = some k) (hlt : k < phase ps.x.status) :
+    (step ot (f + 3) ps .received sn msg).2 = true ∧ (step ot (f + 3) ps .received sn msg).1.x.status = ps.x.status :=
+  backward_step ot hs f ps sn msg k hd hm hlt
+
+/-- the same at the scheduler level: the poll is requested by `Sched.processMessage` and the status of the
+pooled proxy is unchanged (graphs without self-children, state without transient objects) -/
+theorem backward_polls_sched (g : Graph) (hwf : noSelfChild g = true) (s : State) (p : Int) (n : String)
+    (x : Proxy) (hs : StdOut (g.task? n)) (h : s.get? p n = some x) (hgh : s.ghosts = [])
+    (sn : Nat) (msg : String) (k : Nat)
+    (hd : dropped ⟨x, false⟩ .received sn = false) (hm : msgPhase? msg = some k) (hlt : k < phase x.status) :
+    (processMessage g 4 s p n .received sn msg).2 = true ∧
+    ∀ x', (processMessage g 4 s p n .received sn msg).1.get? p n = some x' → x'.status = x.status := by
+  have hsim : Sim p n s ⟨x, false⟩ := by
+    refine ⟨by unfold lookup; rw [h], ?_⟩
+    intro _ y hy; rw [hgh] at hy; simp at hy
+  obtain ⟨h1, h2⟩ := pm_sim g hwf p n 4 s ⟨x, false⟩ .received sn msg hsim
+  obtain ⟨b1, b2⟩ := backward_step (g.task? n) hs 1 ⟨x, false⟩ sn msg k hd hm hlt
+  refine ⟨h2.trans b1, ?_⟩
+  intro x' hx'
+  have hl : lookup (processMessage g 4 s p n .received sn msg).1 p n = some (x', false) := by
+    unfold lookup; rw [hx']
+  have := h1.1
+  rw [hl] at this
+  simp only [Option.some.injEq, Prod.mk.injEq] at this
+  rw [this.1]; exact b2
+
+/-- `started` arriving after `succeeded` -/
+example : (step (some exT) 4 (exP .succeeded ["submitted", "started", "succeeded"] 1) .received 1 "started").2 = true := by
+  decide
+
+/-! ### convergence -/
+
+/-- **outcome succeeded**: after any sequence of deliveries to a task whose job exists (not waiting) in which
+no failure event occurs — duplicates, messages in any order, stale messages, poll results — the poll
+result `succeeded` ends in status succeeded with submitted, started, succeeded complete, no poll pending,
+and every output completed on the way still complete. -/
+theorem converges_succeeded (ot : Option TaskDefn) (hs : StdOut ot) (ps : PS) (ms : List Dlv) (sn : Nat)
+    (hw : ps.x.status ≠ .waiting) (hms : ∀ m ∈ ms, m.text ≠ "failed" ∧ m.text ≠ "submit-failed") :
+    (step ot 4 (deliver ot ps ms) .polled sn "succeeded").2 = false ∧
+    (step ot 4 (deliver ot ps ms) .polled sn "succeeded").1.x.status = .succeeded ∧
+    "submitted" ∈ (step ot 4 (deliver ot ps ms) .polled sn "succeeded").1.x.done ∧
+    "started" ∈ (step ot 4 (deliver ot ps ms) .polled sn "succeeded").1.x.done ∧
+    (hasOut ot "succeeded" = true → "succeeded" ∈ (step ot 4 (deliver ot ps ms) .polled sn "succeeded").1.x.done) ∧
+    (∀ a, a ∈ ps.x.done → a ∈ (step ot 4 (deliver ot ps ms) .polled sn "succeeded").1.x.done) :=
+  converge_succeeded ot hs ps ms sn hw hms
+
+/-- **outcome failed**: whatever is delivered before (anything but a submission failure), the poll result
+`failed` leaves the task failed with its try counter unchanged when no execution retry was left, and
+waiting with exactly one more try when one was — duplicates of the failure cannot burn retries — unless the
+proxy has already left the pool (finished and complete). -/
+theorem converges_failed (ot : Option TaskDefn) (hs : StdOut ot) (ps : PS) (ms : List Dlv) (sn : Nat)
+    (hw : ps.x.status ≠ .waiting)
+    (hf : ps.x.status = .failed → ¬ (ps.x.submitNum > 0 ∧ ps.x.execTry < execMax ot))
+    (hms : ∀ m ∈ ms, m.text ≠ "submit-failed") :
+    (step ot 4 (deliver ot ps ms) .polled sn "failed").1.tr = true ∨
+    ((step ot 4 (deliver ot ps ms) .polled sn "failed").1.x.status = .failed ∧
+      (step ot 4 (deliver ot ps ms) .polled sn "failed").1.x.execTry = ps.x.execTry ∧
+      ¬ (ps.x.submitNum > 0 ∧ ps.x.execTry < execMax ot)) ∨
+    ((step ot 4 (deliver ot ps ms) .polled sn "failed").1.x.status = .waiting ∧
+      (step ot 4 (deliver ot ps ms) .polled sn "failed").1.x.execTry = ps.x.execTry + 1 ∧
+      (ps.x.submitNum > 0 ∧ ps.x.execTry < execMax ot)) :=
+  converge_failed ot hs ps ms sn hw hf hms
+
+/-- **outcome submission failed** (duplicates of the submit result, stale messages, poll results before it) -/
+theorem converges_submit_failed (ot : Option TaskDefn) (hs : StdOut ot) (ps : PS) (ms : List Dlv) (sn : Nat)
+    (hw : ps.x.status ≠ .waiting)
+    (hf : ps.x.status = .submitFailed → ¬ (ps.x.submitNum > 0 ∧ ps.x.subTry < subMax ot))
+    (hms : ∀ m ∈ ms, m.text ≠ "failed" ∧ m.text ≠ "started" ∧ m.text ≠ "succeeded") :
+    (step ot 4 (deliver ot ps ms) .polled sn "submit-failed").1.tr = true ∨
+    ((step ot 4 (deliver ot ps ms) .polled sn "submit-failed").1.x.status = .submitFailed ∧
+      (step ot 4 (deliver ot ps ms) .polled sn "submit-failed").1.x.subTry = ps.x.subTry ∧
+      ¬ (ps.x.submitNum > 0 ∧ ps.x.subTry < subMax ot)) ∨
+    ((step ot 4 (deliver ot ps ms) .polled sn "submit-failed").1.x.status = .waiting ∧
+      (step ot 4 (deliver ot ps ms) .polled sn "submit-failed").1.x.subTry = ps.x.subTry + 1 ∧
+      (ps.x.submitNum > 0 ∧ ps.x.subTry < subMax ot)) :=
+  converge_subfailed ot hs ps ms sn hw hf hms
+
+/-- the hypotheses of the convergence theorems are met by: a running first job, a duplicate `started`, a
+stale `failed` of job 0, the job's own `failed` twice (one retry configured), then the poll result -/
+example : (exP .running ["submitted", "started"] 1).x.status ≠ .waiting ∧
+    (∀ m ∈ [(⟨.received, 1, "started"⟩ : Dlv), ⟨.received, 0, "failed"⟩, ⟨.received, 1, "failed"⟩,
+      ⟨.received, 1, "failed"⟩], m.text ≠ "submit-failed") ∧
+    (step (some exT) 4 (deliver (some exT) (exP .running ["submitted", "started"] 1)
+      [⟨.received, 1, "started"⟩, ⟨.received, 0, "failed"⟩, ⟨.received, 1, "failed"⟩, ⟨.received, 1, "failed"⟩])
+      .polled 1 "failed").1.x.execTry = 1 := by decide
+
+/-- the text without the final truthful poll result: `succeeded` processed, then a poll result `started`
+that was overtaken by it — the task ends running (finding late-poll) -/
+def converge_full : Prop :=
+  ∀ (ot : Option TaskDefn) (ps : PS) (ms : List Dlv), Good ps.x → ps.x.status = .running →
+    (∀ m ∈ ms, m.sn = ps.x.submitNum ∧ (m.text = "succeeded" ∨ m.text = "started")) →
+    (∃ m ∈ ms, m.text = "succeeded") → (deliver ot ps ms).x.status = .succeeded
+
+theorem late_poll_counterexample : ¬ converge_full := by
+  intro h
+  have := h (some exT) (exP .running ["submitted", "started"] 1)
+    [⟨.received, 1, "succeeded"⟩, ⟨.polled, 1, "started"⟩] (by unfold Good; decide) rfl (by decide) (by decide)
+  have h1 : (deliver (some exT) (exP .running ["submitted", "started"] 1)
+      [⟨.received, 1, "succeeded"⟩, ⟨.polled, 1, "started"⟩]).x.status = .running := by
+    unfold deliver
+    simp only [List.foldl]
+    have hnd : dropped (step (some exT) 4 (exP .running ["submitted", "started"] 1) .received 1 "succeeded").1
+        .polled 1 = false := by
+      apply dropped_of_not_waiting _ _ _ _ (by decide)
+      obtain ⟨_, _, hst, _⟩ := sum_succeeded (some exT) exT_std 1 (exP .running ["submitted", "started"] 1)
+        .received 1 (by decide)
+      rw [hst]; decide
+    obtain ⟨_, ⟨s2, hs2, hb⟩, _⟩ := sum_started (some exT) exT_std 2 _ .polled 1 hnd
+    rcases hb with ⟨_, hfl, _⟩ | ⟨_, _, hst⟩
+    · exact absurd hfl (by decide)
+    · exact hst
+  rw [h1] at this
+  exact absurd this (by decide)
+
 end CylcModel.C10
